@@ -44,6 +44,35 @@ def _watch_repo_functions(repo):
         pass
 
 
+LINES = set()
+
+
+def _watch_repo_lines(repo):
+    """Optional (VF_LINECOV_DIR): which lines of the repository's sources the workload executed.  LINE events, each location
+    reports once and is then disabled.  Used by tools/linecov.py to find branches no generated case reaches."""
+    mon = getattr(sys, "monitoring", None)
+    if mon is None:
+        return
+    root = os.path.abspath(repo) + os.sep
+    tool = 5
+
+    def on_line(code, line):
+        fn = code.co_filename
+        if fn.startswith(root):
+            LINES.add((fn[len(root):], line))
+        return mon.DISABLE
+    mon.use_tool_id(tool, "vf-lines")
+    mon.register_callback(tool, mon.events.LINE, on_line)
+    mon.set_events(tool, mon.events.LINE)
+
+
+def _dump_lines():
+    d = os.environ.get("VF_LINECOV_DIR")
+    if d:
+        with open(os.path.join(d, f"{os.getpid()}.json"), "w") as f:
+            json.dump(sorted(LINES), f)
+
+
 def main():
     engine_name, mode, inp, out = sys.argv[1:5]
     faulthandler.enable()
@@ -61,6 +90,8 @@ def main():
         if not os.path.abspath(m.__file__).startswith(os.path.abspath(repo) + os.sep):
             raise SystemExit(f"{modname} imported from {m.__file__}, expected under {repo}")
     _watch_repo_functions(repo)
+    if os.environ.get("VF_LINECOV_DIR"):
+        _watch_repo_lines(repo)
     if mode == "shard":
         res = engine.run_shard(payload)
         res.setdefault("extra", {})["library_functions_entered"] = sorted(REACHED)
@@ -70,6 +101,7 @@ def main():
         if payload.get("verbose") and isinstance(v, dict) and "trace" in v:
             res["trace"] = v.pop("trace")
     res["lost_exceptions"] = LOST[:20]
+    _dump_lines()
     with open(out, "w") as f:
         json.dump(res, f, default=repr)
     sys.stdout.flush()
